@@ -348,6 +348,16 @@ class Normalizer:
         if n == 0:
             return None
         x = a[0]
+        # ---- an Option used as a zero-or-one element stream: `o.iter().flat_map(f)` is `o.map(f).into_iter().flatten()`
+        if is_("Iterator::flat_map") and n == 2:
+            return self.norm(("call", "core::iter::traits::iterator::Iterator::flatten", (("call", "core::iter::traits::iterator::Iterator::map", (a[0], a[1]), 0),), 0), depth + 1)
+        if is_("Iterator::map") and n == 2:
+            src_ = x
+            while isinstance(src_, tuple) and len(src_) == 4 and src_[0] == "call" and src_[2] and any(names.is_(src_[1], q) for q in ("Iterator::cloned", "Iterator::copied")):
+                src_ = src_[2][0]
+            if isinstance(src_, tuple) and len(src_) == 4 and src_[0] == "call" and len(src_[2]) == 1 and any(names.is_(src_[1], q) for q in ("Option::iter", "Option::into_iter", "Option::iter_mut")):
+                o_ = src_[2][0]
+                return ("call", "core::iter::traits::collect::IntoIterator::into_iter", (opt_case(o_, lambda pl: some(ap(a[1], pl)), NONE),), 0)
         # ---- range membership on constants: `(a..=b).contains(&k)`
         if n == 2 and callee.endswith("::contains") and "::range::" in callee:
             r_, k_ = a[0], a[1]
@@ -456,6 +466,10 @@ class Normalizer:
             return res_case(x, lambda pl: NONE, some)
         if is_("Result::is_ok") and n == 1:
             return res_case(x, lambda pl: ("const", 1), lambda e: ("const", 0))
+        if is_("Result::is_ok_and") and n == 2:
+            return res_case(x, lambda pl: ap(a[1], pl), lambda e: ("const", 0))
+        if is_("Result::is_err_and") and n == 2:
+            return res_case(x, lambda pl: ("const", 0), lambda e: ap(a[1], e))
         if is_("Result::is_err") and n == 1:
             return res_case(x, lambda pl: ("const", 0), lambda e: ("const", 1))
         if is_("Result::unwrap_or_default") and n == 1:
